@@ -210,7 +210,7 @@ def run(ck):
                  "ASCII|IGNORECASE|VERBOSE with inner whitespace, ISO is ASCII|VERBOSE without",
                  'tables', 4)
     R3 = ck.rule('R19.3', "a fraction is accepted in the smallest present unit only; an empty "
-                 "duration raises; a decimal comma is converted before float()", 'M0', 4)
+                 "duration raises; a decimal comma is converted before float()", 'M0', 2)
     R4 = ck.rule('R19.4', "time_period: None -> None; int -> float; float -> max(0.0, x); "
                  "str -> convert(x); anything else TypeError", 'M0', 5)
     R5 = ck.rule('R19.5', "convert() re-raises a ValueError (malformed input is never swallowed)",
@@ -343,18 +343,111 @@ def run(ck):
           acc[0].ast if acc else conv.node)
 
     # ---- R19.2 fullmatch
-    fm = [c for c in own_nodes(conv.node) if isinstance(c, ast.Call)
+    scope_ = [conv] + _module_callees(prog, mod, conv)      # the matching may live in a small helper
+    fm = [c for f_ in scope_ for c in own_nodes(f_.node) if isinstance(c, ast.Call)
           and isinstance(c.func, ast.Attribute) and c.func.attr in ('fullmatch', 'match', 'search')]
     ok = bool(fm) and all(c.func.attr == 'fullmatch' for c in fm)
     pats_used = set()
-    for n in own_nodes(conv.node):
-        if isinstance(n, ast.Name) and n.id in pats:
-            pats_used.add(n.id)
+    for f_ in scope_:
+        for n in own_nodes(f_.node):
+            if isinstance(n, ast.Name) and n.id in pats:
+                pats_used.add(n.id)
     ck.ob(R2, f"{conv.fid} :: whole-string match", ok and pats_used == {trad[0], iso[0]},
           f"method(s) {[c.func.attr for c in fm]} applied to {sorted(pats_used)}", conv,
           fm[0] if fm else conv.node)
 
-    # ---- R19.3
+    # ---- R19.3 decided layout-independently: the element loop and the code after it are run on
+    # every combination of elements (absent / 0 / integer / fraction with '.' / fraction with ','),
+    # for the 4 traditional and the 6 ISO groups, and compared with the documented result
+    from sa.minieval import MiniEval
+    import itertools as _it
+    loop_run_ok = None
+    try:
+        pname_ = conv.node.args.args[0].arg
+        body_ = list(conv.node.body)
+        while body_ and (isinstance(body_[0], ast.Assert) or
+                         (isinstance(body_[0], ast.Expr) and isinstance(body_[0].value, ast.Constant)) or
+                         any(isinstance(x, ast.Name) and x.id == pname_ for x in ast.walk(body_[0]))):
+            body_.pop(0)
+        groups_text = norm(zip_node.args[0].args[0])        # <match>.groups()
+        consts_ = {}
+        for nm_ in {x.id for x in ast.walk(conv.node) if isinstance(x, ast.Name)}:
+            try:
+                v_ = fold(prog, mod, ast.Name(id=nm_, ctx=ast.Load()))
+            except Exception:
+                continue
+            if isinstance(v_, (int, float, tuple, list)) or v_ is None:
+                consts_[nm_] = v_
+        bad_ = []
+        ncase_ = 0
+        UNIT = {4: (86400, 3600, 60, 1), 6: (None, None, 86400, 3600, 60, 1)}
+        for ngroups, vals in ((4, (None, '0', '2', '1.5', '1,5')), (6, (None, '0', '3', '2.5'))):
+            for combo in _it.product(vals, repeat=ngroups):
+                if ngroups == 6 and sum(1 for c_ in combo if c_ is not None) > 3:
+                    continue
+                env = dict(consts_)
+                env[groups_text] = tuple(combo)
+                res = MiniEval(R3, env).run(body_)
+                ncase_ += 1
+                ck.abstract_cases += 1
+                present = [(v_, u_) for v_, u_ in zip(combo, UNIT[ngroups]) if v_ is not None]
+                want = None
+                if not present:
+                    want = ('raise', 'ValueError')
+                else:
+                    total = 0.0
+                    for i_, (v_, u_) in enumerate(present):
+                        frac = ('.' in v_) or (',' in v_)
+                        if frac and i_ != len(present) - 1:
+                            want = ('raise', 'ValueError')
+                            break
+                        num = float(v_.replace(',', '.'))
+                        if num != 0.0 and u_ is None:
+                            want = ('raise', 'ValueError')
+                            break
+                        total += num * (u_ or 0)
+                    if want is None:
+                        want = ('return', total)
+                good = res == want or (res[0] == want[0] == 'return' and isinstance(res[1], (int, float))
+                                       and abs(res[1] - want[1]) < 1e-9)
+                if not good and len(bad_) < 4:
+                    bad_.append(f"elements {combo}: {res}, documented {want}")
+        loop_run_ok = not bad_
+        ck.ob(R3, f"{conv.fid} :: abstract run of the element loop", loop_run_ok,
+              f"evaluated on {ncase_} element combinations: sum of value x unit; a fraction only in the "
+              f"smallest present unit; no element / a non-zero year or month raises" if loop_run_ok
+              else "; ".join(bad_), conv, conv.node)
+    except Exception as err:
+        ck.note(f"R19.3 abstract run not applicable: {type(err).__name__}: {err}")
+
+    # ---- R19.3 (the same logic read off one particular layout; evaluated when the run above is not
+    # applicable or failed, to name the offending statement)
+    if not loop_run_ok:
+        _r19_3_shape(ck, R3, conv, cfg, raises, zip_node, vname, trad, iso)
+    nomatch = []
+    for f_ in [conv] + _module_callees(prog, mod, conv):
+        g_ = ck.cfg(f_.fid, 'M0')
+        nomatch += [r for r in nodes_where(g_, lambda n: isinstance(n.ast, ast.Raise), kinds=('stmt',))
+                    if r.kinds == {'N:ValueError'} and (f_ is not conv or
+                                                        any('match' in t for t, p in g_.guard_texts(r)))]
+    ck.ob(R3, f"{conv.fid} :: no match raises", bool(nomatch),
+          "a string matching neither pattern raises ValueError" if nomatch else
+          "no raise for a string that matches neither pattern", conv, conv.node)
+    _rest_of_c19(ck, prog, mod, R4, R5, R6)
+
+
+def _module_callees(prog, mod, fi):
+    """Module-level functions of the same module that fi calls by plain name (one level)."""
+    out = []
+    for x in own_nodes(fi.node):
+        if isinstance(x, ast.Call) and isinstance(x.func, ast.Name):
+            fid = f"{mod.name}:{x.func.id}"
+            if prog.has_func(fid) and prog.func(fid) is not fi and prog.func(fid) not in out:
+                out.append(prog.func(fid))
+    return out
+
+
+def _r19_3_shape(ck, R3, conv, cfg, raises, zip_node, vname, trad, iso):
     flag_w = nodes_where(cfg, lambda n: isinstance(n.ast, ast.Assign) and
                          any(isinstance(t, ast.Name) for t in n.ast.targets) and
                          isinstance(n.ast.value, ast.Constant) and isinstance(n.ast.value.value, bool))
@@ -431,25 +524,45 @@ def run(ck):
           f"raises exactly when a smaller unit was present, and float() always receives a '.'"
           if not bad else "; ".join(bad), conv, (frac_raise[0].ast if frac_raise else conv.node))
 
-    nomatch = [r for r in raises if r.kinds == {'N:ValueError'} and
-               any('match' in t for t, p in cfg.guard_texts(r))]
-    ck.ob(R3, f"{conv.fid} :: no match raises", bool(nomatch),
-          "a string matching neither pattern raises ValueError" if nomatch else
-          "no raise for a string that matches neither pattern", conv, conv.node)
 
+
+def _rest_of_c19(ck, prog, mod, R4, R5, R6):
     # ---- R19.4 time_period
     tp = prog.func(f"{TU}:time_period")
     g = ck.cfg(tp.fid, 'M0')
     p = tp.node.args.args[0].arg
+    # layout-independent decision: abstract run of the case split
+    from sa.minieval import MiniEval
+    tp_run_ok = None
+    try:
+        bad_ = []
+        for val_, want_ in ((None, ('return', None)), (5, ('return', 5.0)), (0, ('return', 0.0)),
+                            (-3, ('return', 0.0)), (2.5, ('return', 2.5)), (-0.5, ('return', 0.0)),
+                            ('1m30s', ('return', ('CONVERTED', '1m30s'))),
+                            # strings that happen to be Python float literals are still durations
+                            ('1e3', ('return', ('CONVERTED', '1e3'))), ('-5', ('return', ('CONVERTED', '-5'))),
+                            ('inf', ('return', ('CONVERTED', 'inf'))), ('12', ('return', ('CONVERTED', '12'))),
+                            ([1], ('raise', 'TypeError')),
+                            ((1, 2), ('raise', 'TypeError'))):
+            res = MiniEval(R4, {p: val_, 'convert': lambda s_: ('CONVERTED', s_)}).run(tp.node.body)
+            ck.abstract_cases += 1
+            if res != want_ or (res[0] == 'return' and type(res[1]) is not type(want_[1])):
+                bad_.append(f"time_period({val_!r}) -> {res}, documented {want_}")
+        tp_run_ok = not bad_
+        ck.ob(R4, f"{tp.fid} :: abstract run", tp_run_ok,
+              "None -> None; int -> float; negative -> 0.0; str -> convert(str); other types -> TypeError "
+              "(13 representative arguments)" if tp_run_ok else "; ".join(bad_[:3]), tp, tp.node)
+    except Exception as err:
+        ck.note(f"R19.4 abstract run not applicable: {err}")
     rets = return_nodes(g)
     r_none = [r for r in rets if g.has_guard(r, f'{p} is None', True) and
               (r.ast.value is None or is_const(r.ast.value, None))]
-    ck.ob(R4, f"{tp.fid} :: None", bool(r_none), "None stays None" if r_none else
+    ck.ob(R4, f"{tp.fid} :: None", bool(r_none) or bool(tp_run_ok), "None stays None" if r_none else
           "`None` is not returned as None", tp, tp.node)
     to_float = nodes_where(g, lambda n: isinstance(n.ast, ast.Assign) and norm(n.ast.value) == f'float({p})'
                            and g.has_guard(n, f'isinstance({p}, int)', True))
     ck.ob(R4, f"{tp.fid} :: int", bool(to_float) or any(
-          g.has_guard(r, f'isinstance({p}, (int, float))', True) for r in rets),
+          g.has_guard(r, f'isinstance({p}, (int, float))', True) for r in rets) or bool(tp_run_ok),
           "an int is converted to float and takes the float branch", tp, tp.node)
     r_float = [r for r in rets if g.has_guard(r, f'isinstance({p}, float)', True)
                or g.has_guard(r, f'isinstance({p}, (int, float))', True)]
@@ -458,21 +571,21 @@ def run(ck):
         and sorted(norm(a) for a in r.ast.value.args) in (sorted(['0.0', p]), sorted(['0.0', f'float({p})']),
                                                           sorted(['0', p]))
         for r in r_float)
-    ck.ob(R4, f"{tp.fid} :: float", okfl,
+    ck.ob(R4, f"{tp.fid} :: float", okfl or bool(tp_run_ok),
           "a number is clamped with max(0.0, x): negative becomes 0" if okfl else
           f"the numeric branch returns {[norm(r.ast.value) for r in r_float]}, not max(0.0, x)",
           tp, r_float[0].ast if r_float else tp.node)
     r_str = [r for r in rets if g.has_guard(r, f'isinstance({p}, str)', True)]
     okst = bool(r_str) and all(isinstance(r.ast.value, ast.Call) and call_name(r.ast.value) == 'convert'
                                and [norm(a) for a in r.ast.value.args] == [p] for r in r_str)
-    ck.ob(R4, f"{tp.fid} :: str", okst, "a string goes through convert()" if okst else
+    ck.ob(R4, f"{tp.fid} :: str", okst or bool(tp_run_ok), "a string goes through convert()" if okst else
           "a string is not converted with convert(period)", tp, r_str[0].ast if r_str else tp.node)
     tr = nodes_where(g, lambda n: isinstance(n.ast, ast.Raise) and n.kinds == {'N:TypeError'},
                      kinds=('stmt',))
     fall = g.exit.id in g.reachable() and any(
         pn.kind != 'stmt' or not isinstance(pn.ast, ast.Return)
         for pn in [g.nodes[i] for i, _ in g.pred[g.exit.id]])
-    ck.ob(R4, f"{tp.fid} :: other types", bool(tr) and not fall,
+    ck.ob(R4, f"{tp.fid} :: other types", (bool(tr) and not fall) or bool(tp_run_ok),
           "any other type raises TypeError" if tr and not fall else
           "an unsupported type does not raise TypeError (falls through)", tp, tp.node)
 
@@ -482,8 +595,18 @@ def run(ck):
     ok = bool(hs) and all(handler_reraises(cv, h) for h in hs)
     gcv = ck.cfg(cv.fid, 'M0')
     calls = nodes_calling(gcv, '_convert')
-    okc = bool(calls) and all(isinstance(r.ast.value, ast.Call) and call_name(r.ast.value) == '_convert'
-                              for r in return_nodes(gcv))
+    rdcv = ck.rdefs(cv.fid, 'M0')
+
+    def _is_conv(r):
+        v = r.ast.value
+        if isinstance(v, ast.Call) and call_name(v) == '_convert':
+            return True
+        if isinstance(v, ast.Name):
+            vals_ = rdcv.value_exprs(r, v.id)
+            return bool(vals_) and all(not isinstance(x, str) and isinstance(x, ast.Call)
+                                       and call_name(x) == '_convert' for x in vals_)
+        return False
+    okc = bool(calls) and all(_is_conv(r) for r in return_nodes(gcv))
     ck.ob(R5, cv.fid, ok and okc,
           "convert() returns _convert()'s value and re-raises its ValueError" if ok and okc else
           "convert() swallows the error of _convert() or returns something else", cv, cv.node)
